@@ -16,7 +16,7 @@ command the decision causes*.
 
 Fields marked `ghost` record history for the theorems only; they never influence a result.
 -/
-namespace SyneTune
+namespace SyneTune.Backend
 
 /-- `syne_tune.backend.trial_status.Status`. -/
 inductive St | inProgress | paused | stopped | stopping | completed | failed
@@ -441,4 +441,4 @@ def Poll.run (b : Poll) : List POp → Poll
     | .ok b' => b'.run ops
     | .error _ => b.run ops
 
-end SyneTune
+end SyneTune.Backend
